@@ -11,10 +11,42 @@ use crate::rd::fnv64;
 
 pub const TRIGGERS: [&str; 8] = ["E2", "E3", "E4", "E5", "E6", "E8", "E9", "S1"];
 
+pub type GenFn = Box<dyn Fn(&[u8]) -> (crate::ast::Program, Vec<&'static str>)>;
+
+pub enum Source {
+    Profile(Profile),
+    Custom(GenFn),
+}
+
+pub struct Fam {
+    pub name: &'static str,
+    pub source: Source,
+    pub quick: u64,
+    pub thorough: u64,
+    pub max_len: usize,
+    /// Some(n): enumerated family with n cases (quick, thorough) instead of random bytes
+    pub enumerated: Option<(u64, u64, bool)>,
+    pub cfg: fn() -> DiffCfg,
+}
+
+impl Fam {
+    pub fn profile(name: &'static str, p: Profile, quick: u64, thorough: u64, max_len: usize) -> Fam {
+        Fam { name, source: Source::Profile(p), quick, thorough, max_len, enumerated: None, cfg: DiffCfg::default }
+    }
+    pub fn custom(name: &'static str, g: GenFn, quick: u64, thorough: u64, max_len: usize) -> Fam {
+        Fam { name, source: Source::Custom(g), quick, thorough, max_len, enumerated: None, cfg: DiffCfg::default }
+    }
+    pub fn generate(&self, bytes: &[u8]) -> (crate::ast::Program, Vec<&'static str>) {
+        match &self.source {
+            Source::Profile(p) => gen::program(bytes, p.clone()),
+            Source::Custom(g) => g(bytes),
+        }
+    }
+}
+
 pub struct DiffProp {
     pub id: &'static str,
-    /// (family name, profile, quick cases, thorough cases, max bytes)
-    pub families: Vec<(&'static str, Profile, u64, u64, usize)>,
+    pub families: Vec<Fam>,
     pub rule: &'static str,
     /// non-trivial predicate over (generator labels, reference events, result)
     pub nontrivial: fn(&[&'static str], &BTreeMap<&'static str, u32>, &DiffResult) -> bool,
@@ -124,8 +156,8 @@ pub fn run_pinned(bytes: &[u8]) -> Verdict {
 }
 
 impl DiffProp {
-    fn profile(&self, family: &str) -> Option<Profile> {
-        self.families.iter().find(|f| f.0 == family).map(|f| f.1.clone())
+    fn fam(&self, family: &str) -> Option<&Fam> {
+        self.families.iter().find(|f| f.name == family)
     }
 }
 
@@ -137,11 +169,17 @@ impl Property for DiffProp {
     fn families(&self, tier: Tier) -> Vec<Family> {
         self.families
             .iter()
-            .map(|(name, _, q, t, len)| Family {
-                name,
-                kind: FamilyKind::Random {
-                    cases: if tier == Tier::Quick { *q } else { *t },
-                    max_len: *len,
+            .map(|f| Family {
+                name: f.name,
+                kind: match f.enumerated {
+                    Some((q, t, ex)) => FamilyKind::Enumerated {
+                        count: if tier == Tier::Quick { q } else { t },
+                        exhaustive: ex && (tier == Tier::Thorough || q == t),
+                    },
+                    None => FamilyKind::Random {
+                        cases: if tier == Tier::Quick { f.quick } else { f.thorough },
+                        max_len: f.max_len,
+                    },
                 },
             })
             .collect()
@@ -164,11 +202,24 @@ impl Property for DiffProp {
         if family == "pinned" {
             return String::from_utf8_lossy(bytes).to_string();
         }
-        match self.profile(family) {
-            Some(p) => {
-                let (prog, _) = gen::program(bytes, p);
+        match self.fam(family) {
+            Some(f) => {
+                let (prog, _) = f.generate(bytes);
                 crate::astutil::fix_lambda_names(&prog);
-                crate::pretty::render(&prog.main)
+                let (main, mods) = crate::pretty::render_program(&prog, &[]);
+                let mut s = main;
+                for (p, m) in mods {
+                    s.push_str(&format!("\n--- module {} ---\n{}", p, m));
+                }
+                if s.len() > 6000 {
+                    let mut cut = 6000;
+                    while !s.is_char_boundary(cut) {
+                        cut -= 1;
+                    }
+                    s.truncate(cut);
+                    s.push_str("\n… (truncated)");
+                }
+                s
             }
             None => "<unknown family>".into(),
         }
@@ -178,12 +229,12 @@ impl Property for DiffProp {
         if ctx.family == "pinned" {
             return run_pinned(ctx.bytes);
         }
-        let prof = match self.profile(ctx.family) {
-            Some(p) => p,
+        let fam = match self.fam(ctx.family) {
+            Some(f) => f,
             None => return Verdict::Discard("unknown family"),
         };
-        let (prog, labels) = gen::program(ctx.bytes, prof);
-        let d = run_diff(&prog, &[], &DiffCfg::default(), &RefCfg::default());
+        let (prog, labels) = fam.generate(ctx.bytes);
+        let d = run_diff(&prog, &[], &(fam.cfg)(), &RefCfg::default());
         for l in labels.iter() {
             ctx.label_n(&format!("gen:{}", l), 1);
         }
